@@ -24,7 +24,7 @@ from .cdef import Contract, LoopSpec  # noqa: E402,F401
 
 SPEC_PRIM_NAMES = {'be', 'le', 'sl', 'cat', 'low', 'shr', 'pow2', 'tb', 'tl', 'bat', 'rpow', 'rpow2', 'bfind',
                    'band', 'bor', 'at', 'toreal', 'is_int_valued', 'decode', 'decodable', 'has_key', 'pv',
-                   'kind_of', 'raw_of', 'val_of', 'keys_of', 'append', 'cls_is', 'warned', 'i2r', 'src_T', 'src_R', 'coerce_like', 'coercible', 'comparable', 'cap', 'mset', 'mdel'}
+                   'kind_of', 'raw_of', 'val_of', 'keys_of', 'append', 'cls_is', 'warned', 'i2r', 'src_T', 'src_R', 'coerce_like', 'coercible', 'comparable', 'cap', 'mset', 'mdel', 'events', 'events0', 'lcat'}
 
 
 class Registry:
@@ -660,6 +660,15 @@ def apply_contract(I, con, args, kwargs, node, clo=None, constructing=None, resu
             I.ghost_defs = saved_gd
             I.in_old, I.old_map = saved_old, saved_map
         return SV('gen', out, extra={'contract': con, 'frame': sf})
+    ev_saved = None
+    if con.ghost.get('events'):
+        # the callee appends to the ghost event log: its ensures relate events() to events0() (= the log at the call)
+        from .specprims import _events
+        cur = _events(I)
+        lt_e = TY.list_theory(TY.Obj)
+        ev_saved = I.path.events0
+        I.path.events0 = cur
+        I.path.events = SV('slist', z3.Const(I.path.fresh_name('events'), lt_e.sort), extra=cur.extra)
     try:
         if result_builder is not None:
             res = result_builder(sf.vars.get('value'), None)
@@ -677,4 +686,6 @@ def apply_contract(I, con, args, kwargs, node, clo=None, constructing=None, resu
         add_hints(I, con.hints, sf)
     finally:
         I.in_old, I.old_map = saved_old, saved_map
+        if ev_saved is not None or con.ghost.get('events'):
+            I.path.events0 = ev_saved if ev_saved is not None else I.path.events0
     return res
